@@ -82,8 +82,14 @@ def main(tier):
         mode = r.choice(("", "", "", "m", "M"))
         if mode == "M" and ("w" in cfg or "d" in cfg):
             mode = "m"        # max-mode exploding pools never terminate (C07's subject)
+        # the names the noise assigns are this case's own (the process is long-lived: what an EARLIER case's noise left behind in shared
+        # state would already be there at the first of the two runs and hide the difference)
+        uq = str(len(meta))
+        src = re.sub(r"\b(sq|sr|st2)\b", lambda m_: m_.group(1) + "n" + uq, src)
         a = f"runseq {cfg}{mode},L300000 {seed} {hx(src)}"
-        noise1 = f"runseq wcfd,L300000 - {hx('10d10 + 3a8 + 3c8 + b2 + f; [1,2,3,4].shuffle(); &tq = sq = 2; tq; &tw = st2 = sr = 3; tw + tw; func nf1() { sq = 4 }; nf1(); &tv.a = 1; &tv')}"
+        noise_src = '10d10 + 3a8 + 3c8 + b2 + f; [1,2,3,4].shuffle(); &tq = sq = 2; tq; &tw = sr = 3; tw + tw; &tx = st2 = 5; tx; func nf1() { sq = 4 }; nf1()'
+        noise_u = re.sub(r"\b(sq|sr|st2)\b", lambda m_: m_.group(1) + "n" + uq, noise_src)
+        noise1 = f"runseq wcfd,L300000 - {hx(noise_u)}"
         noise2 = f"runseq wcfd,L300000 {r.getrandbits(128):032x} {hx('5d10 + [1,2,3].rand()')}"
         lines += [a, noise1, noise2, a]
         meta.append((cfg, src, seed, mode))
